@@ -15,6 +15,19 @@ COMMON_NOTE = (
 
 CLAIMED = {
     # id: (technique, claim text, design ref, extra level note)
+    "C01": (
+        "writer/reader positional-table agreement by provenance and sink",
+        "Decides, for the four codecs in chem/io.py, that each writer tuple position and the reader position at the same "
+        "index name the same field (by provenance of the writer element and the constructor keyword / role the reader "
+        "value sinks into), with equal float dtypes of >= 4 bytes, reshape dims equal to the counts the writer stored and "
+        "the rank of the container; that atom/bond sub-schemas are the same constant on both sides, split at the same "
+        "index with endpoints in (a1, a2) order, name only init fields of Atom/Bond and contain every field the property "
+        "lists; that the library classes pair serializer/deserializer of the same kind and version, and that Collection "
+        "passes key and value through the codec. A disagreement necessarily loses or misplaces a field for some object; "
+        "value-level equality (NaN, nested attributes) is not decided.",
+        "DESIGN.md section 4, C01",
+        "numpy / msgpack value semantics trusted.",
+    ),
     "C02": (
         "commit-last ordering on the statement CFG + writer/reader header table agreement + who-may-write",
         "Decides, on every path of UKVFile.put, that argument validation precedes the first stream write and that "
@@ -43,6 +56,39 @@ CLAIMED = {
         "identity from the resolved path and who-may-call for backend writes. Mutual exclusion itself is fasteners'.",
         "DESIGN.md section 4, C04",
         "schedules and real multi-process behaviour are not explored; fasteners trusted.",
+    ),
+    "C08": (
+        "unit-orientation (dimension) check against physical constants + column agreement + keyword forwarding",
+        "Decides that every DistanceUnit literal equals the physical constant or its reciprocal, that all members share "
+        "one orientation, and that at every site where a unit value reaches the coordinates the operation (numerator / "
+        "denominator position, and scale() multiplying) converts to Angstrom for that orientation; that the xyz writer's "
+        "columns and header and the reader's split / XYZAtom / coords agree position by position with literal blanks "
+        "between fields; that ensemble writers emit every conformer in order and the reader keeps list order; and that "
+        "source_units is forwarded by every public reader down to the scaling.",
+        "DESIGN.md section 4, C08",
+        "float formatting precision and magnitudes are not decided.",
+    ),
+    "C09": (
+        "dispatch-matrix correspondence + MRO resolution + must-assigned dataflow on the CFG",
+        "Decides cell by cell that each molli-format arm of load/loads/load_all/loads_all/dump/dumps makes exactly one "
+        "call, to <entry>_<fmt>, returns it (or hands over the stream given), passes name=name; that the target resolves on "
+        "every output type the entry point's guards admit; that the ValueError guard dominates the format match and the "
+        "arms are exactly supported_fmts_molli; that every local read is definitely assigned (finally copies included); "
+        "that only a stream opened by dump is closed; and that name travels down every class-level wrapper into the "
+        "object returned.",
+        "DESIGN.md section 4, C09",
+        "the returned objects' contents are C07/C08.",
+    ),
+    "C10": (
+        "stale-state reaching definitions between yields + count-loop shape + cycle weights for termination",
+        "Decides that in read_mol2 every yield-to-yield path reassigns each variable of the yielded record (nothing of "
+        "record k can be returned inside record k+1); that each count-driven record loop reads exactly one line and "
+        "appends exactly once per iteration with no early exit or swallowing handler, into a list that is fresh on every "
+        "path into the loop; that every handler in the record generators re-raises (read_xyz: as XYZSyntaxError, yield "
+        "outside try); that every CFG cycle of the reader loops consumes input net of put_backs (termination); and that "
+        "the molecule is sized and filled from the block's own header, atoms and bonds.",
+        "DESIGN.md section 4, C10",
+        "corruption that yields a different valid file is undetectable by any reader and not claimed.",
     ),
 }
 
